@@ -202,6 +202,7 @@ def evaluate(d, cfgtext, masses, charges, cell, history, pos):
 
 def probe_chunk(args):
     scs, seed = args
+    scs = list(scs)
     rng = random.Random(seed)
     out = []
     d = vlib.Drv(timeout=60)
@@ -240,21 +241,30 @@ def probe_chunk(args):
                     pm[a][ax] -= H
                     rp = evaluate(d, cfgtext, masses, charges, sc["cell"], history, pp)
                     rm = evaluate(d, cfgtext, masses, charges, sc["cell"], history, pm)
-                    if rp is None or rm is None:
+                    if rp is None or rm is None or rp.get("E") is None or rm.get("E") is None or E0 is None:
                         probes = None
                         break
                     de = rp["E"] - rm["E"]
                     tf = 2 * H * F[ax]
                     scale = max(abs(tf), abs(de))
-                    if scale * 1e9 > 2.0e9 or E0 != E0:
+                    if E0 != E0 or scale != scale:
                         probes = None
                         break
+                    # 32-bit integers on the TLC side: coarsen the unit for large forces (the tolerance scales with it)
+                    unit = 1e-9
+                    while scale / unit > 2.0e9:
+                        unit *= 10.0
                     probes.append({"e": "Probe", "sc": "%s/%s%s" % (sc["comp"], sc["bias"], "/cell" if sc["cell"] else ""), "atom": a + 1, "ax": ax,
-                                   "de": int(round(de * 1e9)), "tf": int(round(tf * 1e9)), "tol": int(100 + 2e-4 * scale * 1e9)})
+                                   "de": int(round(de / unit)), "tf": int(round(tf / unit)), "tol": int(100 + 2e-4 * scale / unit), "unit": unit})
                 if probes is None:
                     break
             if probes is None:
-                out.append((sc, None, {"key": "machinery", "what": "probe failed or out of range (E0 = %r)" % E0}))
+                sc2 = dict(sc)
+                sc2["retry"] = sc.get("retry", 0) + 1
+                if sc2["retry"] <= 4:
+                    scs.append(sc2)         # another random geometry (documented singular geometries give not-a-number)
+                else:
+                    out.append((sc, None, {"key": "nan", "what": "no finite energy at five random geometries (last E0 = %r)" % E0}))
                 continue
             out.append((sc, {"E0": E0, "probes": probes}, None))
     finally:
@@ -335,7 +345,7 @@ def run(ctx):
                 k = (rr.stuck_at if rr is not None and hasattr(rr, "stuck_at") else 1)
                 e = evs[min(max(k - 1, 0), len(evs) - 1)]
                 ctx.violation("law:" + name, "%s: atom %d axis %d: energy difference %.3e, 2h x force %.3e (tolerance %.1e): the force is not minus the gradient of the reported energy" % (
-                    name, e["atom"], e["ax"], e["de"] * 1e-9, e["tf"] * 1e-9, e["tol"] * 1e-9), {"scenario": name, "event": e})
+                    name, e["atom"], e["ax"], e["de"] * e.get("unit", 1e-9), e["tf"] * e.get("unit", 1e-9), e["tol"] * e.get("unit", 1e-9)), {"scenario": name, "event": e})
 
 
 def replay(ctx, path):
